@@ -16,6 +16,21 @@ type c8Parked struct {
 	by *c8Handler
 }
 
+// c8NamedSub / c8NamedPub: Pub/Subs that name themselves (fmt.Stringer), one name per instance.
+type c8NamedSub struct {
+	*ScriptedSubscriber
+	label string
+}
+
+func (s c8NamedSub) String() string { return s.label }
+
+type c8NamedPub struct {
+	*ScriptedPublisher
+	label string
+}
+
+func (p c8NamedPub) String() string { return p.label }
+
 type c8Handler struct {
 	name     string
 	subTopic string
@@ -23,6 +38,7 @@ type c8Handler struct {
 	sub      *ScriptedSubscriber
 	pub      *ScriptedPublisher
 	noPub    bool
+	named    bool // the router is handed Stringer wrappers around this handler's Pub/Sub: their String() is the type name to report
 	addOut   bool // middleware that adds an output (only interesting on no-publisher handlers)
 	outN     map[string]int  // uuid -> number of outputs
 	passSelf map[string]bool // uuid -> return the consumed object itself as first output
@@ -80,6 +96,7 @@ func c08Body(r *Run) {
 			h.pubTopic = "" // a publisher that routes by metadata does not need a topic
 		}
 		h.noPub = t.Chance(1, 5)
+		h.named = t.Chance(1, 3)
 		if h.noPub {
 			h.addOut = t.Chance(1, 2)
 		}
@@ -96,7 +113,10 @@ func c08Body(r *Run) {
 	}
 	checkCtx := func(where string, h *c8Handler, m *message.Message) {
 		ctx := m.Context()
-		pubName := "scen.ScriptedPublisher"
+		pubName, subName := "scen.ScriptedPublisher", "scen.ScriptedSubscriber"
+		if h.named {
+			pubName, subName = "pub of "+h.name, "sub of "+h.name
+		}
 		pubTopic := h.pubTopic
 		if h.noPub {
 			// what stands in for the missing publisher is the router's business: its type name is not compared
@@ -104,7 +124,7 @@ func c08Body(r *Run) {
 			pubTopic = ""
 		}
 		got := [5]string{message.HandlerNameFromCtx(ctx), message.SubscribeTopicFromCtx(ctx), message.PublishTopicFromCtx(ctx), message.SubscriberNameFromCtx(ctx), message.PublisherNameFromCtx(ctx)}
-		want := [5]string{h.name, h.subTopic, pubTopic, "scen.ScriptedSubscriber", pubName}
+		want := [5]string{h.name, h.subTopic, pubTopic, subName, pubName}
 		if got != want {
 			r.Fail("C08.R4", "router context accessors report another handler's wiring", "%s of %s, message %s: got %v want %v", where, h.name, m.UUID, got, want)
 		}
@@ -174,8 +194,13 @@ func c08Body(r *Run) {
 			return outs, nil
 		}
 		var hh *message.Handler
+		var hsub message.Subscriber = h.sub
+		var hpub message.Publisher = h.pub
+		if h.named {
+			hsub, hpub = c8NamedSub{h.sub, "sub of " + h.name}, c8NamedPub{h.pub, "pub of " + h.name}
+		}
 		if h.noPub {
-			hh = rig.Router.AddNoPublisherHandler(h.name, h.subTopic, h.sub, func(m *message.Message) error { _, err := fn(m); return err })
+			hh = rig.Router.AddNoPublisherHandler(h.name, h.subTopic, hsub, func(m *message.Message) error { _, err := fn(m); return err })
 			if h.addOut {
 				hh.AddMiddleware(func(next message.HandlerFunc) message.HandlerFunc {
 					return func(m *message.Message) ([]*message.Message, error) {
@@ -188,7 +213,7 @@ func c08Body(r *Run) {
 				})
 			}
 		} else {
-			hh = rig.Router.AddHandler(h.name, h.subTopic, h.sub, h.pubTopic, h.pub, fn)
+			hh = rig.Router.AddHandler(h.name, h.subTopic, hsub, h.pubTopic, hpub, fn)
 		}
 		_ = hh
 	}
